@@ -10,6 +10,9 @@ r = subprocess.run(["git", "show", br + ":known_findings.json"], capture_output=
 theirs = json.loads(r.stdout) if r.returncode == 0 else {"findings": [], "fixed": []}
 m = subprocess.run(["git", "merge", "--no-commit", br], capture_output=True, text=True, cwd="/verif")
 print(m.stdout[-1500:], m.stderr[-500:])
+if props:
+    # the branch owns these properties: its list replaces ours for them (entries it moved to "fixed" disappear)
+    ours["findings"] = [g for g in ours["findings"] if g["property"] not in props]
 for f in theirs.get("findings", []):
     if props and f["property"] not in props:
         continue
